@@ -598,13 +598,18 @@ func c03DeepRecursion(c *drv.Ctx) {
 		})
 	}
 
-	c.Stage("deep-recursion", 8, true, func(cs *drv.Case) {
+	c.Stage("deep-recursion", 10, true, func(cs *drv.Case) {
 		old := debug.SetMaxStack(64 << 20)
 		defer debug.SetMaxStack(old)
 		n := 400000
 		var b []byte
 		var t byte = ref.STRUCT
-		switch cs.Idx % 4 {
+		switch cs.Idx % 5 {
+		case 4:
+			t = ref.SET
+			for i := 0; i < n; i++ {
+				b = append(b, ref.SET, 0, 0, 0, 1)
+			}
 		case 0:
 			for i := 0; i < n; i++ {
 				b = append(b, ref.STRUCT, 0, 1)
@@ -625,7 +630,7 @@ func c03DeepRecursion(c *drv.Ctx) {
 				b = append(b, ref.MAP, ref.I32, 0, 0, 0, 1)
 			}
 		}
-		if cs.Idx >= 4 {
+		if cs.Idx >= 5 {
 			b = append(ref.EncFieldBegin(nil, t, 5), b...) // as a field of a struct / unknown-field sequence
 			t = ref.STRUCT
 		}
